@@ -476,6 +476,12 @@ def run_shard(desc, ctx):
     for _ in range(desc["ncases"]):
         case = gen_case(rng)
         run_case(case, ctx)
+    # the obs / forecast / quantile lines of one -m obsfcst table are averages over the SAME cases (those valid in every file)
+    from . import c12
+    r2 = random.Random("C01-obsfcst-%d-%d" % (desc["seed"], desc["shard"]))
+    for ci in range(4 if desc.get("tier") == "quick" else 60):
+        c12.obsfcst_table(ctx, r2, ci)
+        ctx.count("obsfcst_tables_on_common_cases")
 
 
 def replay(case, ctx):
